@@ -242,6 +242,9 @@ def rule_R1(text, counts):
             # expression position (e.g. a match arm): the macro call has type (), replace it by ()
             m2 = re.search(r"\b(?:ic_cdk::(?:api::)?)?(?:println!|eprintln!|print!)\s*\(", m_)
             if not m2:
+                # the logging FUNCTION in expression position (`None => print(&format!(..)),`)
+                m2 = re.search(r"(?<![\w:.!])(?<!fn )(?:ic_cdk::(?:api::)?|runtime::|crate::runtime::)?print\s*\(", m_)
+            if not m2:
                 return text
             c2 = match_close(m_, m2.end() - 1)
             text = text[:m2.start()] + "()" + text[c2 + 1:]
